@@ -154,6 +154,13 @@ edit_op (DBusMessage *m, const char *tok)
         }
     }
   else if (!strcmp (tok, "unk")) ok = _dbus_header_remove_unknown_fields (&m->header);
+  else if (!strcmp (tok, "rd"))
+    {
+      /* the application looks at the body: a message in the other byte order is converted to native order on the way */
+      DBusMessageIter it;
+      dbus_message_iter_init (m, &it);
+      ok = TRUE;
+    }
   else if (sscanf (tok, "serial:%15s", kind) == 1) dbus_message_set_serial (m, (dbus_uint32_t) strtoul (kind, NULL, 10));
   else ok = FALSE;
   return ok;
